@@ -1,17 +1,17 @@
 SPECIFICATION Spec
 CONSTANTS
   Classes <- Classes4
-  Outs <- OutsC02
-  Durs = {0, 1, 2, 5}
-  Rets <- RetsC02
-  Advs <- AdvsAll
-  Decs <- DecsSleep
+  Outs <- OutsC05
+  Durs = {0}
+  Rets <- RetsAll
+  Advs <- AdvsExact
+  Decs <- DecsAll
   BFaults <- BFaultsNone
-  Ras <- RasNone
+  Ras <- RasSome
   Modes = {"call", "exec"}
   RunGaps <- GapsNone
   NRuns = 1
-  Configs <- ConfigsC02
+  Configs <- ConfigsC05T
   RecordHist = FALSE
 INVARIANT NoViolation
 INVARIANT AttemptsBounded
